@@ -1,6 +1,8 @@
 package main
 
 import (
+	sqlite3 "github.com/mattn/go-sqlite3"
+	"time"
 	"database/sql"
 	"fmt"
 	"math"
@@ -35,6 +37,19 @@ type TableSpec struct {
 	Cols      []ColSpec
 	Rows      []RowSpec
 	GeomFirst bool // geometry column declared before the attributes
+	// TypeNameCase: how gpkg_geometry_columns.geometry_type_name is spelled in the source: 0 upper case (as the
+	// specification wants it), 1 "MultiPolygon" style, 2 lower case. Readers compare these names without regard to case.
+	TypeNameCase int
+}
+
+func (t *TableSpec) typeNameAsWritten() string {
+	switch t.TypeNameCase {
+	case 1:
+		return map[string]string{"POLYGON": "Polygon", "MULTIPOLYGON": "MultiPolygon", "POINT": "Point", "LINESTRING": "LineString"}[t.GeomType]
+	case 2:
+		return strings.ToLower(t.GeomType)
+	}
+	return t.GeomType
 }
 
 var srsRD = ggpkg.SpatialReferenceSystem{Name: "Amersfoort / RD New", ID: 28992, Organization: "EPSG", OrganizationCoordsysID: 28992,
@@ -100,6 +115,11 @@ func makeSource(path string, tables []TableSpec) error {
 		if err := h.AddGeometryTable(ggpkg.TableDescription{Name: t.Name, ShortName: t.Name, Description: t.Name, GeometryField: t.GeomCol, GeometryType: geomTypeOf(t.GeomType), SRS: int32(t.SRS), Z: ggpkg.Prohibited, M: ggpkg.Prohibited}); err != nil {
 			return fmt.Errorf("register %s: %w", t.Name, err)
 		}
+		if t.TypeNameCase != 0 {
+			if _, err := h.Exec(`UPDATE gpkg_geometry_columns SET geometry_type_name=? WHERE table_name=?`, t.typeNameAsWritten(), t.Name); err != nil {
+				return fmt.Errorf("respell geometry type of %s: %w", t.Name, err)
+			}
+		}
 		cols := []string{"fid"}
 		for _, c := range t.Cols {
 			cols = append(cols, c.Name)
@@ -115,7 +135,14 @@ func makeSource(path string, tables []TableSpec) error {
 			if err != nil {
 				return fmt.Errorf("encode geometry: %w", err)
 			}
-			args := append(append([]any{r.FID}, r.Vals...), sb)
+			args := []any{r.FID}
+			for _, v := range r.Vals {
+				if tl, ok := v.(timeLit); ok {
+					v = string(tl) // stored as the text it is
+				}
+				args = append(args, v)
+			}
+			args = append(args, sb)
 			if _, err := tx.Exec(q, args...); err != nil {
 				return fmt.Errorf("insert into %s: %w", t.Name, err)
 			}
@@ -151,9 +178,30 @@ type ReadTable struct {
 	DataType                 string
 }
 
+// timeLit: the text stored in a column declared DATE / DATETIME / TIMESTAMP. The sqlite driver hands such a value out as
+// time.Time; what must survive is the instant (the notation may change).
+type timeLit string
+
+func parseTimeLit(s string) (time.Time, bool) {
+	s = strings.TrimSuffix(s, "Z")
+	for _, f := range sqlite3.SQLiteTimestampFormats {
+		if t, err := time.ParseInLocation(f, s, time.UTC); err == nil {
+			return t, true
+		}
+	}
+	return time.Time{}, false
+}
+
 func normVal(v any) any {
 	switch x := v.(type) {
 	case []byte:
+		return string(x)
+	case time.Time:
+		return "instant:" + x.UTC().Format(time.RFC3339Nano)
+	case timeLit:
+		if t, ok := parseTimeLit(string(x)); ok {
+			return "instant:" + t.UTC().Format(time.RFC3339Nano)
+		}
 		return string(x)
 	}
 	return v
@@ -409,6 +457,17 @@ func genAttrCols(rng *fw.Rng) []ColSpec {
 	return cols
 }
 
+// withTimeCols turns some columns into DATE / DATETIME / TIMESTAMP columns (C13 sources; drawn from its own stream).
+func withTimeCols(rng *fw.Rng, cols []ColSpec) []ColSpec {
+	for i := range cols {
+		if rng.Chance(1, 5) {
+			cols[i].Type = fw.Pick(rng, []string{"DATETIME", "DATETIME", "DATE", "TIMESTAMP"})
+			cols[i].Name = "at" + cols[i].Name
+		}
+	}
+	return cols
+}
+
 func genVals(rng *fw.Rng, cols []ColSpec, i int) []any {
 	vals := make([]any, len(cols))
 	for k, c := range cols {
@@ -421,6 +480,16 @@ func genVals(rng *fw.Rng, cols []ColSpec, i int) []any {
 			vals[k] = int64(rng.Intn(2000000)) - 1000000
 		case "REAL":
 			vals[k] = math.Round(rng.NormFloat()*1e6)/64 + 0.5
+		case "DATE":
+			vals[k] = timeLit(fmt.Sprintf("%04d-%02d-%02d", 1990+rng.Intn(60), 1+rng.Intn(12), 1+rng.Intn(28)))
+		case "DATETIME", "TIMESTAMP":
+			sep := fw.Pick(rng, []string{"T", " "})
+			frac := fw.Pick(rng, []string{"", "", ".5", ".123456", ".000000001"})
+			zone := fw.Pick(rng, []string{"Z", "", "+00:00", "+02:00", "-05:30", "+01:00", "+14:00", "-11:00"})
+			if zone == "Z" && sep == " " {
+				sep = "T"
+			}
+			vals[k] = timeLit(fmt.Sprintf("%04d-%02d-%02d%s%02d:%02d:%02d%s%s", 1990+rng.Intn(60), 1+rng.Intn(12), 1+rng.Intn(28), sep, rng.Intn(24), rng.Intn(60), rng.Intn(60), frac, zone))
 		default:
 			vals[k] = fmt.Sprintf("%s-%d-%c", fw.Pick(rng, []string{"straat", "weg", "ünï", "a b", "", "it's"}), i, 'a'+rune(rng.Intn(26)))
 		}
